@@ -5,6 +5,7 @@ base repository template
 __all__ = ("CategoryLazyFrozenSet", "PackageMapping", "VersionMapping", "tree")
 
 import typing
+from functools import partial
 from itertools import chain
 from pathlib import Path
 
@@ -291,8 +292,11 @@ class tree:
     ):
         for cp in sorter(candidates):
             if versioned:
-                pkgs = (
-                    raw_pkg_cls(cp[0], cp[1], ver) for ver in self.versions.get(cp, ())
+                # map() survives raw_pkg_cls raising for one version (pkg_filter may
+                # skip it); a generator expression would be finished by the exception
+                # and silently drop every version after the bad one
+                pkgs = map(
+                    partial(raw_pkg_cls, cp[0], cp[1]), self.versions.get(cp, ())
                 )
             else:
                 if self.versions.get(cp, ()):
